@@ -207,12 +207,16 @@ func runC14(c *CaseCtx) (res CaseResult) {
 	}
 	names := []string{"alpha", "beta", "gamma", "delta", "x", "ärger"}
 	subs := []string{"s", "t9", "a+b", "k=v", "v1.2/x"}
-	list := func(n int, form int) []xLabel {
+	list := func(n int, form int, allowErr bool) []xLabel {
 		var out []xLabel
 		usedN := map[string]bool{}
 		usedT := map[reflect.Type]bool{}
 		for tries := 0; len(out) < n && tries < 50; tries++ {
 			l := xLabel{T: types[r.Intn(nTypes)]}
+			if allowErr && r.Intn(8) == 0 {
+				// a PARAMETER of type error is an ordinary input, in any position
+				l.T = errT
+			}
 			if form != FormPos {
 				if r.Intn(2) == 0 {
 					l.Name = pick(r, names)
@@ -237,8 +241,8 @@ func runC14(c *CaseCtx) (res CaseResult) {
 		return out
 	}
 	inForm, outForm := r.Intn(3), r.Intn(3)
-	in := list(r.Intn(5), inForm)
-	out := list(r.Intn(4), outForm)
+	in := list(r.Intn(5), inForm, true)
+	out := list(r.Intn(4), outForm, false)
 	if len(in) == 0 {
 		inForm = FormPos
 	}
@@ -324,6 +328,21 @@ func runC14(c *CaseCtx) (res CaseResult) {
 		}
 	}
 	res.obs("reinspections_after_scribbling_over_returned_values", 1)
+	if len(in) > 0 {
+		// a call that is refused, and its error rendered in every way: the
+		// function reports the same values afterwards
+		func() {
+			defer func() { recover() }()
+			rr := f.Call(am.Named("nobody-wants-this", T5{ID: 1}), am.ConverterFunc(f))
+			if e := rr.Err(); e != nil {
+				_ = e.Error()
+				_ = fmt.Sprintf("%v %+v %s", e, e, e)
+			}
+		}()
+		cmp("input", f.Input().Values(), in)
+		cmp("output", f.Output().Values(), expOut)
+		res.obs("reinspections_after_rendering_an_error", 1)
+	}
 	lookups := func(kind string, vs *am.ValueSet, ls []xLabel, form int) {
 		typeCount := map[reflect.Type]int{}
 		for _, l := range ls {
@@ -756,6 +775,32 @@ func runC17(c *CaseCtx) (res CaseResult) {
 		} else if rr.Err() != nil {
 			res.violate("C17", "err-spurious", "no final error result but Err() != nil: "+firstLine(errStr(rr.Err())), det)
 		}
+	}
+	if redef && !withParam {
+		// the ORIGINAL function called directly after its redefined twin was
+		// used: it still returns exactly what its body returned
+		rr := f.Call()
+		res.Evals++
+		expLen := k
+		if hasErr {
+			expLen--
+		}
+		if rr.Len() != expLen {
+			res.violate("C17", "len", fmt.Sprintf("direct call after calls of the redefined function: Len() = %d for %d results (final error: %v)", rr.Len(), k, hasErr), det)
+		} else {
+			for i := 0; i < expLen; i++ {
+				if got := rr.Out(i); got != want[i] && !reflect.DeepEqual(got, want[i]) {
+					res.violate("C17", "out", fmt.Sprintf("direct call after calls of the redefined function: Out(%d) = %v, the function returned %v", i, got, want[i]), det)
+				}
+			}
+			if hasErr && rr.Err() != want[k-1] {
+				res.violate("C17", "err-identity", fmt.Sprintf("direct call after calls of the redefined function: Err() = %v, the function returned %v", rr.Err(), want[k-1]), det)
+			}
+			if !hasErr && rr.Err() != nil {
+				res.violate("C17", "err-spurious", "direct call after calls of the redefined function: Err() != nil", det)
+			}
+		}
+		res.obs("direct_calls_after_redefined_calls", 1)
 	}
 	if once && execs > 1 {
 		res.violate("C11", "once-reexecuted", fmt.Sprintf("run-once function executed %d times", execs), det)
